@@ -51,6 +51,43 @@ CONSTANTS
 INVARIANT NoBad
 """
 
+SESSION_MC_CFG = """SPECIFICATION Spec
+CONSTANTS
+  Ws = {2}
+  StrikeResponses = %(strike)s
+  MaxReq = %(nreq)d
+  MaxResp = %(nresp)d
+  MaxBurn = %(nburn)d
+  MaxDeliver = %(ndel)d
+VIEW View
+INVARIANT C11_RoundTrip
+INVARIANT C11_ResponseBound
+INVARIANT C11_ErrorFamily
+"""
+
+SESSION_SIM_CFG = """SPECIFICATION Spec
+CONSTANTS
+  Ws = {2, 3}
+  StrikeResponses = FALSE
+  MaxReq = 3
+  MaxResp = 5
+  MaxBurn = 3
+  MaxDeliver = 12
+INVARIANT NoBad
+"""
+
+SESSION_TRACE_CFG = """SPECIFICATION TSpec
+CONSTANTS
+  Ws = {2}
+  StrikeResponses = FALSE
+  MaxReq = 1
+  MaxResp = 1
+  MaxBurn = 1
+  MaxDeliver = 1
+INVARIANT Report
+CHECK_DEADLOCK FALSE
+"""
+
 TRACE_CFG = """SPECIFICATION TSpec
 CONSTANTS
   IdCtxs = {"none"}
@@ -577,12 +614,317 @@ def run_behaviour(b):
     return {"trace": rec.events, "meta": {"unexpected": list(rec.unexpected.values()), "drift": drift}}
 
 
+
+# -- sessions: two contexts that KEEP their state (sequence numbers, replay windows) ------------------
+SESSION_BLANK = {"k": "start", "x": "A", "id": 0, "rq": 0, "own": True, "n": -1, "res": "sent", "equal": True, "why": "", "kind": "", "situation": ""}
+
+
+def window_view(ctx):
+    """(initialised, index, seen) of a context's replay window, for statistics only."""
+    w = ctx.recipient_replay_window
+    try:
+        if not w.is_initialized():
+            return False, 0, set()
+        idx, bits = w._index, w._bitfield
+        return True, idx, {idx + i for i in range(bits.bit_length()) if bits >> i & 1}
+    except Exception:
+        return None, 0, set()
+
+
+def run_session(s):
+    """Genuine traffic between two contexts sharing keys: requests both ways,
+    several responses per request (own partial IV = notifications), gaps in
+    the sender's numbers, late / reordered / duplicated delivery."""
+    oscore, aiocoap = _env()
+    import shutil
+    import tempfile
+
+    cls = _G["cls"]
+    ids = {"A": bytes.fromhex(s["cid"]), "B": bytes.fromhex(s["sid"])}
+    idctx = None if s["idctx"] is None else bytes.fromhex(s["idctx"])
+    W = s["W"]
+    rng = random.Random(s.get("seed", 0))
+    tmp = None
+    ctx = {}
+    try:
+        if s.get("fs"):
+            # the file-backed context: an uninitialised window is what an unclean restart leaves behind
+            tmp = tempfile.mkdtemp(prefix="verif-c11-")
+            for x in "AB":
+                d = os.path.join(tmp, x)
+                os.mkdir(d)
+                settings = {"sender-id_hex": ids[x].hex(), "recipient-id_hex": ids[Other(x)].hex(), "secret_hex": SECRET.hex(), "salt_hex": SALT.hex(), "window": W}
+                if idctx is not None:
+                    settings["id-context_hex"] = idctx.hex()
+                with open(os.path.join(d, "settings.json"), "w") as f:
+                    json.dump(settings, f)
+                if not s["init" + x]:
+                    with open(os.path.join(d, "sequence.json"), "w") as f:
+                        json.dump({"next-to-send": 0, "received": "unknown"}, f)
+                ctx[x] = oscore.FilesystemSecurityContext(d)
+        else:
+            for x in "AB":
+                echo = bytes(rng.randrange(256) for _ in range(8)) if s["echo" + x] else None
+                ctx[x] = oscore_env.new_context(oscore, ids[x], ids[Other(x)], secret=SECRET, salt=SALT, id_context=idctx, window=W, initialized=bool(s["init" + x]), echo_recovery=echo, cls=cls)
+        start = dict(SESSION_BLANK, W=W, initA=bool(s["initA"]), initB=bool(s["initB"]), echoA=bool(s["echoA"]), echoB=bool(s["echoB"]))
+        events = [start]
+        net = []
+        srv_rid = {}
+        delivered = {}
+        notes = []
+
+        def emit(**kw):
+            events.append(dict(start, **kw))
+
+        def unprotect(dst, wire, rid, view):
+            try:
+                plain, new_rid = ctx[dst].unprotect(aiocoap.Message.decode(wire), rid)
+            except oscore.ProtectionInvalid as e:
+                return "reject", False, type(e).__name__, None
+            except Exception as e:
+                return "other", False, type(e).__name__, None
+            try:
+                equal = inner_view(plain) == view
+            except Exception:
+                equal = False
+            return "msg", equal, "", new_rid
+
+        for st in s["steps"]:
+            k = st["k"]
+            if k == "req":
+                x = st["x"]
+                m = aiocoap.Message(code=aiocoap.GET, uri_path=("res", "n%d" % len(net)), observe=0)
+                outer, rid = protect(ctx[x], m)
+                n = int.from_bytes(parse_option(bytes(outer.opt.oscore))["piv"], "big")
+                net.append({"kind": "req", "from": x, "n": n, "wire": on_wire(outer, mid=len(net) + 1), "view": inner_view(m), "rid": rid})
+                emit(k="req", x=x, id=len(net), n=n, kind="req")
+            elif k == "burn":
+                for _ in range(st["n"]):
+                    protect(ctx[st["x"]], aiocoap.Message(code=aiocoap.GET, uri_path=("elsewhere",)))
+                emit(k="burn", x=st["x"], n=st["n"])
+            elif k == "rx_req":
+                if not 1 <= st["id"] <= len(net) or net[st["id"] - 1]["kind"] != "req":
+                    continue
+                m = net[st["id"] - 1]
+                dst = Other(m["from"])
+                res, equal, why, new_rid = unprotect(dst, m["wire"], None, m["view"])
+                if res == "msg":
+                    srv_rid.setdefault(st["id"], new_rid)
+                emit(k="rx_req", x=dst, id=st["id"], n=m["n"], res=res, equal=equal, why=why, kind="req")
+            elif k == "respond":
+                rid = srv_rid.get(st["rq"])
+                if rid is None:
+                    notes.append("response to request %d skipped: its recipient did not accept it" % st["rq"])
+                    continue
+                x = Other(net[st["rq"] - 1]["from"])
+                if st["own"]:
+                    rid = clone_rid(rid)
+                    rid.get_reusable_kid_and_piv()
+                elif not rid.can_reuse_nonce:
+                    notes.append("nonce of request %d already reused: response skipped" % st["rq"])
+                    continue
+                m = aiocoap.Message(code=aiocoap.CONTENT, payload=b"state %d of the resource" % len(net), observe=len(net) + 1, etag=b"e%07d" % len(net))
+                outer, _ = protect(ctx[x], m, rid)
+                piv = parse_option(bytes(outer.opt.oscore))["piv"]
+                n = -1 if piv is None else int.from_bytes(piv, "big")
+                net.append({"kind": "resp", "from": x, "n": n, "rq": st["rq"], "wire": on_wire(outer, mid=len(net) + 1), "view": inner_view(m)})
+                emit(k="respond", x=x, id=len(net), rq=st["rq"], own=n >= 0, n=n, kind="resp")
+            elif k == "rx_resp":
+                if not (1 <= st["id"] <= len(net) and 1 <= st["rq"] <= len(net)):
+                    continue
+                m, q = net[st["id"] - 1], net[st["rq"] - 1]
+                if m["kind"] != "resp" or q["kind"] != "req" or q["from"] != Other(m["from"]):
+                    continue
+                dst = q["from"]
+                own = m["rq"] == st["rq"]
+                init, idx, seen = window_view(ctx[dst])
+                if m["n"] < 0:
+                    situation = "nonce-reused"
+                elif init is False:
+                    situation = "uninitialised-window"
+                elif init and m["n"] < idx:
+                    situation = "below-window"
+                elif init and m["n"] in seen:
+                    situation = "number-seen-in-window"
+                elif (st["id"], st["rq"]) in delivered:
+                    situation = "duplicate"
+                else:
+                    situation = "fresh"
+                if (st["id"], st["rq"]) in delivered:
+                    situation += "+duplicate" if situation != "duplicate" else ""
+                delivered[(st["id"], st["rq"])] = True
+                res, equal, why, _ = unprotect(dst, m["wire"], clone_rid(q["rid"]), m["view"])
+                emit(k="rx_resp", x=dst, id=st["id"], rq=st["rq"], own=own, n=m["n"], res=res, equal=equal, why=why, kind="resp-ownpiv" if m["n"] >= 0 else "resp-reuse", situation=situation)
+        return {"trace": events, "meta": {"unexpected": [], "drift": notes, "session": True}}
+    finally:
+        for c in ctx.values():
+            lock = getattr(c, "lockfile", None)
+            if lock is not None:
+                c.lockfile = None
+                try:
+                    lock.release()
+                except Exception:
+                    pass
+        if tmp:
+            shutil.rmtree(tmp, ignore_errors=True)
+
+
+def Other(x):
+    return "B" if x == "A" else "A"
+
+
+def sessions_from_sim(behs, rng):
+    out = []
+    for beh in behs:
+        if len(beh) < 2:
+            continue
+        s0 = beh[0][1]
+        steps = []
+        for _l, st in beh[1:]:
+            a = st["act"]
+            if a["k"] == "req":
+                steps.append({"k": "req", "x": a["x"]})
+            elif a["k"] == "burn":
+                steps.append({"k": "burn", "x": a["x"], "n": a["n"]})
+            elif a["k"] == "rx_req":
+                steps.append({"k": "rx_req", "id": a["id"]})
+            elif a["k"] == "respond":
+                steps.append({"k": "respond", "rq": a["rq"], "own": bool(a["own"])})
+            elif a["k"] == "rx_resp":
+                steps.append({"k": "rx_resp", "id": a["id"], "rq": a["rq"]})
+        cid, sid = rng.choice(ID_PAIRS_13)
+        out.append({
+            "session": True, "origin": "sim", "W": s0["size"], "fs": False, "cid": cid, "sid": sid, "idctx": rng.choice(IDCTXS), "seed": rng.randrange(1 << 30),
+            "initA": bool(s0["ep"]["A"]["win"]["init"]), "initB": bool(s0["ep"]["B"]["win"]["init"]),
+            "echoA": bool(s0["ep"]["A"]["echo"]), "echoB": bool(s0["ep"]["B"]["echo"]), "steps": steps,
+        })
+    return out
+
+
+def directed_sessions(rng, thorough):
+    """Real-scale (default window 32 and others) sessions for the situations the
+    statement's 'every message' has to survive."""
+    out = []
+
+    def base(W, fs=False, **kw):
+        cid, sid = rng.choice(ID_PAIRS_13)
+        d = {"session": True, "origin": "directed", "W": W, "fs": fs, "cid": cid, "sid": sid, "idctx": rng.choice(IDCTXS), "seed": rng.randrange(1 << 30), "initA": True, "initB": True, "echoA": fs, "echoB": fs}
+        d.update(kw)
+        if fs:
+            d["echoA"] = d["echoB"] = True  # the file-backed context always has Echo recovery
+        return d
+
+    variants = [(32, False), (32, True), (4, False), (64, False)] + ([(1, False), (7, False), (33, True)] if thorough else [])
+    for W, fs in variants:
+        gap = W + 9
+        # notifications more than a window apart, delivered late-before-early, each twice
+        out.append(dict(base(W, fs), name="notifications-reordered-beyond-window", steps=[
+            {"k": "req", "x": "A"}, {"k": "rx_req", "id": 1}, {"k": "respond", "rq": 1, "own": False}, {"k": "respond", "rq": 1, "own": True},
+            {"k": "burn", "x": "B", "n": gap}, {"k": "respond", "rq": 1, "own": True}, {"k": "respond", "rq": 1, "own": True},
+            {"k": "rx_resp", "id": 2, "rq": 1}, {"k": "rx_resp", "id": 4, "rq": 1}, {"k": "rx_resp", "id": 3, "rq": 1}, {"k": "rx_resp", "id": 5, "rq": 1},
+            {"k": "rx_resp", "id": 3, "rq": 1}, {"k": "rx_resp", "id": 4, "rq": 1}, {"k": "rx_resp", "id": 2, "rq": 1}]))
+        # the same response with its own partial IV, three times
+        out.append(dict(base(W, fs), name="response-delivered-repeatedly", steps=[
+            {"k": "req", "x": "B"}, {"k": "rx_req", "id": 1}, {"k": "respond", "rq": 1, "own": True},
+            {"k": "rx_resp", "id": 2, "rq": 1}, {"k": "rx_resp", "id": 2, "rq": 1}, {"k": "rx_resp", "id": 2, "rq": 1}]))
+        # role reversal: B's response is overtaken by more than a window of B's own requests
+        steps = [{"k": "req", "x": "A"}, {"k": "rx_req", "id": 1}, {"k": "respond", "rq": 1, "own": True}]
+        nreq = min(gap, 40) if W <= 32 else 6
+        if nreq < gap:
+            steps.append({"k": "burn", "x": "B", "n": gap - nreq})
+        for i in range(nreq):
+            steps += [{"k": "req", "x": "B"}, {"k": "rx_req", "id": 3 + i}]
+        steps += [{"k": "rx_resp", "id": 2, "rq": 1}, {"k": "respond", "rq": 3 + nreq - 1, "own": True}, {"k": "respond", "rq": 3, "own": False},
+                  {"k": "rx_resp", "id": 3 + nreq, "rq": 3 + nreq - 1}, {"k": "rx_resp", "id": 4 + nreq, "rq": 3}, {"k": "rx_resp", "id": 2, "rq": 1},
+                  {"k": "respond", "rq": 1, "own": True}, {"k": "rx_resp", "id": 5 + nreq, "rq": 1}]
+        out.append(dict(base(W, fs), name="role-reversal-window-moved-by-peer-requests", steps=steps))
+        # a requester whose window is uninitialised (state lost), with and without Echo recovery
+        for echo in ((True,) if fs else (False, True)):
+            out.append(dict(base(W, fs, initA=False, echoA=echo), name="requester-with-uninitialised-window", steps=[
+                {"k": "req", "x": "A"}, {"k": "req", "x": "A"}, {"k": "rx_req", "id": 1}, {"k": "rx_req", "id": 2},
+                {"k": "respond", "rq": 1, "own": False}, {"k": "respond", "rq": 1, "own": True}, {"k": "respond", "rq": 2, "own": True}, {"k": "burn", "x": "B", "n": 3}, {"k": "respond", "rq": 1, "own": True},
+                {"k": "rx_resp", "id": 6, "rq": 1}, {"k": "rx_resp", "id": 4, "rq": 1}, {"k": "rx_resp", "id": 3, "rq": 1}, {"k": "rx_resp", "id": 5, "rq": 2},
+                {"k": "rx_resp", "id": 5, "rq": 1}, {"k": "rx_resp", "id": 4, "rq": 2}, {"k": "rx_resp", "id": 6, "rq": 1}, {"k": "rx_resp", "id": 4, "rq": 1}]))
+    return out
+
+
+def random_session(rng):
+    W = rng.choice([32, 32, 4, 8, 1, 33])
+    steps = []
+    reqs, resps = [], []  # (id, from)
+    nid = 0
+    init = {"A": rng.random() < 0.75, "B": rng.random() < 0.75}
+    for _ in range(rng.randint(12, 40)):
+        r = rng.random()
+        if r < 0.2 or not reqs:
+            x = rng.choice("AB")
+            nid += 1
+            reqs.append((nid, x))
+            steps += [{"k": "req", "x": x}]
+            if rng.random() < 0.8:
+                steps.append({"k": "rx_req", "id": nid})
+        elif r < 0.3:
+            steps.append({"k": "burn", "x": rng.choice("AB"), "n": rng.choice([1, 2, W, W + 1, W + 7])})
+        elif r < 0.35:
+            steps.append({"k": "rx_req", "id": rng.choice(reqs)[0]})
+        elif r < 0.6:
+            rq, frm = rng.choice(reqs)
+            if not init[Other(frm)]:
+                continue  # an uninitialised recipient accepts no request (C12): nothing to answer
+            nid += 1
+            resps.append((nid, rq))
+            steps.append({"k": "respond", "rq": rq, "own": rng.random() < 0.8, "expect_id": nid})
+        elif resps:
+            rid_, rq = rng.choice(resps)
+            if rng.random() < 0.15:
+                others = [q for q, f in reqs if f == dict(reqs)[rq] and q != rq]
+                if others:
+                    rq = rng.choice(others)
+            steps.append({"k": "rx_resp", "id": rid_, "rq": rq})
+    cid, sid = rng.choice(ID_PAIRS_13)
+    return {"session": True, "origin": "random", "name": "random", "W": W, "fs": False, "cid": cid, "sid": sid, "idctx": rng.choice(IDCTXS), "seed": rng.randrange(1 << 30),
+            "initA": init["A"], "initB": init["B"], "echoA": rng.random() < 0.5, "echoB": rng.random() < 0.5, "steps": steps}
+
+
+def session_sig(clause, ev):
+    return "%s|session|%s|%s|res=%s%s" % (clause, ev["kind"], "own-request" if ev["own"] else "other-request", ev["res"], ":" + ev["why"] if ev["why"] else "")
+
+
+def validate_sessions(rep, wd, items, results, timeout=900):
+    traces = [r["trace"] for r in results]
+    verdicts, _r = oscore_env.validate_traces(wd, "OscoreSessionTrace", SESSION_TRACE_CFG, traces, timeout=timeout)
+    ndrift = 0
+    for item, res, v in zip(items, results, verdicts):
+        flagged = False
+        for at, clause in v["all"]:
+            if not clause.startswith("C11_"):
+                continue
+            flagged = True
+            ev = res["trace"][at - 1]
+            rep.violation(
+                clause,
+                session_sig(clause, ev),
+                "clause %s false on a real result (event %d of a recorded session, %s, window %d, %s contexts): %s; receiver's window: %s\nsession %s"
+                % (clause, at, item.get("name", item["origin"]), item["W"], "file-backed" if item.get("fs") else "in-memory",
+                   json.dumps({k: ev[k] for k in ("k", "x", "id", "rq", "own", "n", "res", "equal", "why")}), ev["situation"], json.dumps(item)[:900]),
+                {"item": item, "event": ev, "index": at - 1, "trace": res["trace"]},
+            )
+        if "DRIFT_model" in v["bad"] and not flagged:
+            ndrift += 1
+            if ndrift <= 3:
+                at = v["at"]["DRIFT_model"]
+                rep.add_drift("recorded session is not a behaviour of the OscoreSession model although no clause is false (%s, window %d) at event %d: %s" % (item.get("name", item["origin"]), item["W"], at, json.dumps(res["trace"][at - 1])))
+    return len(traces), ndrift
+
+
 class ProtectFailed(Exception):
     pass
 
 
 def _run(x):
     try:
+        if x.get("session"):
+            return run_session(x)
         return run_behaviour(x) if "steps" in x else run_sample(x)
     except ProtectFailed as e:
         # no protected message exists: nothing for C11 to judge
@@ -744,7 +1086,10 @@ def replay(rep, args):
     if "error" in res:
         raise MachineryError(res["error"])
     with tlc.Workdir() as wd:
-        validate_and_report(rep, wd, [item], [res])
+        if item.get("session"):
+            validate_sessions(rep, wd, [item], [res])
+        else:
+            validate_and_report(rep, wd, [item], [res])
     rep.coverage.update({"states": 0, "transitions": 0, "traces_validated_against_impl": 1, "samples": [res["trace"][:4]], "replayed": args.replay})
     rep.assumptions.append(oscore_env.ASSUMPTION)
 
@@ -759,6 +1104,9 @@ def work(rep, args):
         rep.add_drift("tree under test deviates from the RFC 8613 Appendix C vectors: " + d)
     nsim = 150 if quick else 2500
     nsamples = 150 if quick else 3000
+    nsess_sim = 150 if quick else 2500
+    nsess_rand = 120 if quick else 3000
+    sess_consts = dict(nreq=2, nresp=3, nburn=1, ndel=4) if quick else dict(nreq=2, nresp=3, nburn=2, ndel=5)
     with tlc.Workdir() as wd:
         import threading
 
@@ -769,6 +1117,10 @@ def work(rep, args):
             box["mc"] = tlc.run(wd, "Oscore.tla", "OS_mc.cfg", timeout=1800 if quick else 3400, workers=max(2, (os.cpu_count() or 4) - 4))
             wd.write("OS_mc2.cfg", MC_CFG % {"ko": "TRUE", "nreq": 1, "nresp": 1})
             box["mc2"] = tlc.run(wd, "Oscore.tla", "OS_mc2.cfg", timeout=900, workers=2)
+            wd.write("OSS_mc.cfg", SESSION_MC_CFG % dict(sess_consts, strike="FALSE"))
+            box["smc"] = tlc.run(wd, "OscoreSession.tla", "OSS_mc.cfg", timeout=1800 if quick else 3400, workers=max(2, (os.cpu_count() or 4) - 4))
+            wd.write("OSS_mc2.cfg", SESSION_MC_CFG % dict(nreq=2, nresp=2, nburn=1, ndel=3, strike="TRUE"))
+            box["smc2"] = tlc.run(wd, "OscoreSession.tla", "OSS_mc2.cfg", timeout=900, workers=2)
 
         th = threading.Thread(target=run_mc)
         th.start()
@@ -778,20 +1130,44 @@ def work(rep, args):
         sim = tlc.run(wd, "Oscore.tla", "OS_sim.cfg", workers=1, timeout=900, simulate="file=%s/tr,num=%d" % (simdir, nsim), depth=40, seed=args.seed + 1)
         tlc.need_ok_run(sim, "Oscore simulation")
         behs = behaviours_from_sim(tlc.read_sim_traces(os.path.join(simdir, "tr")))
+        # sessions: stateful contexts, genuine traffic, hostile delivery order
+        wd.write("OSS_sim.cfg", SESSION_SIM_CFG)
+        ssimdir = wd.file("ssim")
+        os.makedirs(ssimdir)
+        ssim = tlc.run(wd, "OscoreSession.tla", "OSS_sim.cfg", workers=1, timeout=900, simulate="file=%s/tr,num=%d" % (ssimdir, nsess_sim), depth=30, seed=args.seed + 2)
+        tlc.need_ok_run(ssim, "OscoreSession simulation")
+        sessions = sessions_from_sim(tlc.read_sim_traces(os.path.join(ssimdir, "tr")), rng)
+        n_sess_sim = len(sessions)
+        sessions += directed_sessions(rng, not quick)
+        n_sess_directed = len(sessions) - n_sess_sim
+        sessions += [random_session(rng) for _ in range(nsess_rand)]
         items = behs + samples(rng, nsamples, not quick)
-        results = run_all(items)
-        for it, res in zip(items, results):
+        all_results = run_all(items + sessions)
+        for it, res in zip(items + sessions, all_results):
             if "error" in res:
                 raise MachineryError("driver failed on %s\n%s" % (json.dumps(it)[:500], res["error"]))
+        results, sess_results = all_results[: len(items)], all_results[len(items) :]
         validated, distinct_records, ndrift, nviol_events = validate_and_report(rep, wd, items, results)
+        sess_validated, sess_drift = validate_sessions(rep, wd, sessions, sess_results)
         th.join()
-        mc, mc2 = box.get("mc"), box.get("mc2")
-        if mc is None or mc2 is None:
+        mc, mc2, smc, smc2 = box.get("mc"), box.get("mc2"), box.get("smc"), box.get("smc2")
+        if mc is None or mc2 is None or smc is None or smc2 is None:
             raise MachineryError("Oscore model check did not run")
         tlc.need_ok_run(mc, "Oscore model check")
         tlc.need_ok_run(mc2, "Oscore model check (kid optional)")
+        tlc.need_ok_run(smc, "OscoreSession model check")
+        tlc.need_ok_run(smc2, "OscoreSession model check (responses struck out)")
         if mc.violated:
             raise MachineryError("the RFC-shaped Oscore model violates %s: the specification is wrong" % mc.violated)
+        if smc.violated:
+            raise MachineryError("the RFC-shaped OscoreSession model violates %s: the specification is wrong" % smc.violated)
+        if smc2.violated:
+            rep.notes.append(
+                "design-level counterexample (TLC): if responses with their own partial IV were struck out of the replay window the session model violates %s: %s"
+                % (smc2.violated, json.dumps([st.get("act", {}).get("k") for _l, st in smc2.error_trace]))
+            )
+        else:
+            raise MachineryError("OscoreSession with StrikeResponses = TRUE shows no counterexample: the session model does not see the window")
         if mc2.violated:
             rep.notes.append(
                 "design-level counterexample (TLC): with a request's kid treated as optional (what the tree under test does) the model violates %s: %s"
@@ -818,6 +1194,23 @@ def work(rep, args):
             for u in r["meta"]["unexpected"]:
                 unexpected.setdefault((u["exception"], u["role"], u["edit"]), u)
         smp = [x for x in items if "steps" not in x]
+        # what the sessions exercised
+        sit = {}
+        sess_deliveries = 0
+        for r in sess_results:
+            for e in r["trace"]:
+                if e["k"] in ("rx_req", "rx_resp"):
+                    sess_deliveries += 1
+                if e["k"] == "rx_resp" and e["own"]:
+                    for part in e["situation"].split("+"):
+                        key = "%s %s" % (e["kind"], part)
+                        sit[key] = sit.get(key, 0) + 1
+        need_sit = {"resp-ownpiv fresh", "resp-ownpiv duplicate", "resp-ownpiv below-window", "resp-ownpiv number-seen-in-window", "resp-ownpiv uninitialised-window", "resp-reuse nonce-reused"}
+        if need_sit - set(sit) and not rep.violations:
+            raise MachineryError("session situations never exercised: %s" % sorted(need_sit - set(sit)))
+        for it, res in zip(sessions, sess_results):
+            if it["origin"] == "directed" and res["meta"]["drift"] and not rep.violations and len(rep.drift) < 6:
+                rep.add_drift("directed session %s: %s" % (it.get("name"), res["meta"]["drift"][0]))
         need = {"none", "bitflip", "piv_other", "piv_remove", "piv_add", "piv_pad", "piv_long", "kid_other", "kid_remove", "kid_add_right", "kid_add_wrong", "kidctx_other", "kidctx_remove", "kidctx_add_right", "kidctx_add_wrong", "flag_group", "flag_reserved", "ct_corrupt", "ct_short", "ct_swap"}
         if need - set(by_class) and not rep.violations:
             raise MachineryError("manipulation classes never exercised: %s" % sorted(need - set(by_class)))
@@ -829,6 +1222,20 @@ def work(rep, args):
                 "mc_constants": {"IdCtxs": ["none", "g1"], "MaxReq": 2, "MaxResp": 2 if quick else 3, "KidOptional": False, "edits": 19, "recipients": ["peer", "foreign", "otherctx"]},
                 "exhaustive": True,
                 "design_counterexample_with_kid_optional": mc2.violated,
+                "session_model": {
+                    "states": smc.distinct, "transitions": smc.generated, "depth": smc.depth,
+                    "constants": dict(sess_consts, Ws=[2], start=["window initialised/uninitialised x Echo recovery on/off, per endpoint"]),
+                    "design_counterexample_if_responses_were_struck_out": smc2.violated,
+                },
+                "sessions_from_simulation": n_sess_sim,
+                "sessions_directed": n_sess_directed,
+                "sessions_random": nsess_rand,
+                "sessions_validated_against_impl": sess_validated,
+                "sessions_not_explained_by_model": sess_drift,
+                "session_deliveries": sess_deliveries,
+                "session_response_deliveries_by_receiver_state": dict(sorted(sit.items())),
+                "session_window_sizes": sorted({x["W"] for x in sessions}),
+                "sessions_on_file_backed_contexts": sum(1 for x in sessions if x.get("fs")),
                 "attacker_behaviours_from_simulation": len(behs),
                 "sample_messages": len(smp),
                 "traces_validated_against_impl": validated,
@@ -854,12 +1261,13 @@ def work(rep, args):
                     {"item": items[i] if "steps" not in items[i] else {"idc": items[i]["idc"], "steps": items[i]["steps"][:6]}, "events": [{k: e[k] for k in ("k", "role", "e", "rcpt", "own", "res", "why", "mut")} for e in results[i]["trace"][:6]]}
                     for i in (0, len(behs), len(items) - 1)
                 ],
-                "checker_cmd": "tlc Oscore.tla (Spec exhaustive, KidOptional FALSE and TRUE; -simulate) ; tlc OscoreTrace.tla on recorded results",
+                "checker_cmd": "tlc Oscore.tla (Spec exhaustive, KidOptional FALSE and TRUE; -simulate) ; tlc OscoreTrace.tla on recorded results ; tlc OscoreSession.tla (exhaustive, StrikeResponses FALSE and TRUE; -simulate) ; tlc OscoreSessionTrace.tla on recorded sessions",
             }
         )
     rep.assumptions += [
         oscore_env.ASSUMPTION,
-        "in-memory security contexts (real CanProtect/CanUnprotect/SecurityContextUtils code) as in tests/test_oscore.py; every delivery goes to a recipient with an empty replay window (replay protection is C12's subject)",
+        "in-memory security contexts (real CanProtect/CanUnprotect/SecurityContextUtils code) as in tests/test_oscore.py; in the mutation part every delivery goes to a recipient with an empty replay window (replay protection of requests is C12's subject)",
+        "sessions: two contexts (in-memory, or FilesystemSecurityContext on temporary directories) keep sender sequence numbers and replay windows while genuine requests/responses/notifications flow both ways and are delivered late, reordered, duplicated; only genuine unmodified messages are delivered there; whether a REQUEST is accepted is not judged there (C12), only that an accepted one equals the original and that nothing but ProtectionInvalid-family errors leaves unprotect",
         "the harness's own codec of the OSCORE option value (RFC 8613 section 6.1) classifies manipulated options for the model and applies field-level edits",
         "Group OSCORE, deterministic requests and Proxy-Uri requests (which protect() of the tree refuses) are not driven; outer code and outer options are not manipulated (the statement names ciphertext, partial IV, key ID, ID context)",
         "removing/adding a kid context or a response kid whose value the recipient takes from its own context anyway is not counted as a change of the ID context / key ID (RFC 8613 leaves these hints unauthenticated); either outcome is accepted for them",
